@@ -14,6 +14,9 @@ CLAIMS = {
  'C07': 'Per-step fee-ledger identities: swap bookkeeping against a symbolic SwapComputation (pending ledger, all-time counters, burn message, nothing else moves), collect (exact amounts, recipient, carve-out for the sub-threshold defect), ledgers untouched by deposits/withdrawals; vault after_trade / collect / other entry points.',
  'C14': 'Differential execution: the real Simulation query and the real swap execution run on one symbolic state (offer credited between the two); transferred return, recorded protocol fee, burned amount and every amount attribute equal the quote. Vault Share query equals the withdraw payout.',
  'C17': 'Three symbolic toggle bits in the stored config; every guarded entry path of pair and vault: accepted only with its own bit on, rejected as disabled only with its own bit off (whatever the other bits), a paused call writes nothing; instantiate stores all bits true.',
+ 'C08': 'Inductive steps for bond / unbond / withdraw of the bonding contract with symbolic block time, record timestamps and unbonding period (so same block, +1ns, period-1, period are all in the domain), 0..2 (thorough 3) pending records plus another user\'s record, everyone else as symbolic aggregates: conservation, exact maturity rule, owner-only payout, Withdrawable query = withdraw.',
+ 'C09': 'Inductive steps for claim and for the new-epoch reply of the fee distributor over 2..3 stored epochs with symbolic consecutive ids, 1..2 assets, symbolic grace period, cursor and shares: claimed+available=total, payout = ledger decrease = floor(total*share), window and cursor rules, double claim rejected, rollover of the expiring epoch exactly once.',
+ 'C10': 'Message-shape and reply obligations of the fee collector: ForwardFees authorisation (symbolic sender) and its four ordered self-submessages, one CollectProtocolFees per factory child, aggregation skip rules and exact amounts for native and cw20 assets with route / simulation outcomes enumerated, the take-rate reply (exact floor, history entry, remainder to the distributor, epoch echo).',
  'C15': 'assert_max_spread (spread and belief-price clauses, default and cap) and the pair slippage-tolerance test with fully symbolic arguments, the arguments swap passes to the slippage check, and the router: AssertMinimumReceive appended last with the receiver balance, and Ok <=> balance delta >= minimum.',
  'C20': 'Every path of the real epoch-manager create_epoch entry point from an arbitrary stored epoch/config with symbolic block time, 0..3 hooks: accepted calls are never early and advance id/start by exactly one step; permissionless.',
 }
